@@ -24,13 +24,24 @@
    independently written oracle of the check; no theorem relates it to the other two. *)
 From Coq Require Import String.
 From Suiron Require Import Model.Term Model.Subst Model.Show Model.Rename Model.Solve Spec.SpecSolve
-  Spec.SpecLazy Spec.SpecCut Spec.Refine Proofs.SolveDead Proofs.SolveCut Proofs.SolveMisc Proofs.RefinePlain Proofs.RefineDen Proofs.RefineCut.
+  Spec.SpecLazy Spec.SpecCut Spec.Refine Proofs.SolveDead Proofs.SolveCut Proofs.SolveMisc Proofs.RefinePlain Proofs.RefineDen Proofs.RefineCut Proofs.SolveTimeout Proofs.SolveQuiet.
 
 Theorem C01_refines : forall kb bf q w fs R nd w1 m F R',
   canswers kb bf fs q w = Ok R ->
   make_base_node kb (GCall q) w = Ok (nd, w1) ->
   ask_all kb bf m F nd w1 = Ok R' -> R' = R.
 Proof. exact refines_cut. Qed.
+
+(* solve_all reports the same answers, each formatted (`answer_text`: replace_variables, then
+   `$Var = value` for the query's variables in argument order - C01_partial_answer_format),
+   when no timeout is pending *)
+Theorem C01_solve_all_reports_the_reference_answers : forall kb fuel q w fs R nd w1 nd' l w',
+  quiet w ->
+  canswers kb fuel fs q w = Ok R ->
+  make_base_node kb (GCall q) w = Ok (nd, w1) ->
+  solve_all fuel kb nd w1 = Ok (nd', l, w') ->
+  Forall2 (fun s txt => exists f, answer_text f q s = Ok txt) (fst R) l /\ w' = snd R.
+Proof. exact solve_all_refines. Qed.
 
 (* the refinement mapping, for every node and every continuation *)
 Theorem C01_step_all : forall kb bf F nd w nd' r c w1 fs k R,
@@ -144,6 +155,7 @@ Check C01_partial_answer_format : forall f0 qargs f1 rargs, length qargs = lengt
   Ok (show_pairs true (var_pairs qargs rargs)).
 
 Print Assumptions C01_refines.
+Print Assumptions C01_solve_all_reports_the_reference_answers.
 Print Assumptions C01_step_all.
 Print Assumptions C01_fresh_node_all.
 Print Assumptions C01_refines_cut_free.
